@@ -1,5 +1,6 @@
 """C05 -- lines of a datagram are independent; parsed data never aliases the buffer.
-spec/Datagram.tla (P-level PParse, I-level IParse) -> harness/c05 TestCases through the real DatagramParser."""
+spec/Datagram.tla (P-level PParse, I-level IParse) -> harness/c05 TestCases through the real DatagramParser.
+Stage (socket side): rcvstage (Receiver.tla; clauses Garbled / Sender): what a parser reads is the datagram it was handed."""
 import os
 import vlib
 import rcvstage
